@@ -18,7 +18,7 @@ use emit::{
     value::{ToValue, Value},
     Clock, Ctxt, Emitter, Event, Extent, Filter, Path, Props, Str, Timestamp,
 };
-use vcommon::rec::{nanos_of, ts_from_nanos};
+use vcommon::rec::ts_from_nanos;
 
 // ---------------------------------------------------------------------------
 // model values / events
@@ -115,7 +115,57 @@ pub enum MExt {
     Range(u64, u64),
 }
 
+/// Model instants are unix nanos in a u64; `u64::MAX` stands for `Timestamp::MAX` (year 9999,
+/// which does not fit) and 0 is `Timestamp::MIN`.
+pub const TS_MAX: u64 = u64::MAX;
+
+pub fn ts_real(n: u64) -> Timestamp {
+    if n == TS_MAX {
+        Timestamp::MAX
+    } else {
+        ts_from_nanos(n)
+    }
+}
+
+pub fn ts_model(t: &Timestamp) -> u64 {
+    if *t == Timestamp::MAX {
+        return TS_MAX;
+    }
+    let d = t.to_unix();
+    d.as_secs().saturating_mul(1_000_000_000).saturating_add(d.subsec_nanos() as u64)
+}
+
+/// The instant in real nanoseconds (for lengths).
+pub fn real_nanos(n: u64) -> u128 {
+    if n == TS_MAX {
+        253_402_300_799u128 * 1_000_000_000 + 999_999_999
+    } else {
+        n as u128
+    }
+}
+
 impl MExt {
+    /// For signatures: which shape of extent the event carries.
+    pub fn shape(self) -> &'static str {
+        match self {
+            MExt::None => "absent",
+            MExt::Point(p) if p == 0 || p == TS_MAX => "min-max-point",
+            MExt::Point(_) => "point",
+            MExt::Range(s, e) if s == e => "empty-range",
+            MExt::Range(s, e) if real_nanos(s) > real_nanos(e) => "backwards-range",
+            MExt::Range(s, e) if s == 0 || e == TS_MAX => "min-max-range",
+            MExt::Range(..) => "forward-range",
+        }
+    }
+
+    /// `Extent::len()`: a range's length, nothing for a point or when the end is before the start.
+    pub fn len(self) -> Option<u128> {
+        match self {
+            MExt::Range(s, e) => real_nanos(e).checked_sub(real_nanos(s)),
+            _ => None,
+        }
+    }
+
     pub fn kind(self) -> u8 {
         match self {
             MExt::None => 0,
@@ -127,8 +177,8 @@ impl MExt {
     pub fn real(self) -> Option<Extent> {
         match self {
             MExt::None => None,
-            MExt::Point(p) => Some(Extent::point(ts_from_nanos(p))),
-            MExt::Range(s, e) => Some(Extent::range(ts_from_nanos(s)..ts_from_nanos(e))),
+            MExt::Point(p) => Some(Extent::point(ts_real(p))),
+            MExt::Range(s, e) => Some(Extent::range(ts_real(s)..ts_real(e))),
         }
     }
 
@@ -136,8 +186,8 @@ impl MExt {
         match e {
             None => MExt::None,
             Some(e) => match e.as_range() {
-                Some(r) => MExt::Range(nanos_of(&r.start), nanos_of(&r.end)),
-                None => MExt::Point(nanos_of(e.as_point())),
+                Some(r) => MExt::Range(ts_model(&r.start), ts_model(&r.end)),
+                None => MExt::Point(ts_model(e.as_point())),
             },
         }
     }
@@ -347,6 +397,16 @@ pub enum FLeaf {
     Count(usize),
     /// the i-th enumerated key
     KeyAt(usize, String),
+    /// `ts_start()` is present (the extent is a range)
+    StartPresent,
+    /// the extent is a range starting at this instant (`as_range().start`)
+    StartEq(u64),
+    /// `extent.len()` is present (a range whose end is not before its start)
+    HasLen(bool),
+    /// `extent.len()` is exactly this many nanoseconds
+    LenEq(u64),
+    /// the extent is a range whose end is before its start
+    Backwards,
     /// no property has this key (rejects *because of* an ambient property)
     LacksKey(String),
     /// stateful: accepts its first n evaluations, rejects afterwards (a budget / rate limiter)
@@ -388,6 +448,11 @@ impl FLeaf {
             },
             FLeaf::Count(n) => ev.props.len() == *n,
             FLeaf::KeyAt(i, k) => ev.props.get(*i).map(|(pk, _)| pk == k).unwrap_or(false),
+            FLeaf::StartPresent => matches!(ev.ext, MExt::Range(..)),
+            FLeaf::StartEq(n) => matches!(ev.ext, MExt::Range(s, _) if s == *n),
+            FLeaf::HasLen(b) => ev.ext.len().is_some() == *b,
+            FLeaf::LenEq(n) => ev.ext.len() == Some(*n as u128),
+            FLeaf::Backwards => matches!(ev.ext, MExt::Range(s, e) if real_nanos(s) > real_nanos(e)),
             FLeaf::LacksKey(k) => !ev.props.iter().any(|(pk, _)| pk == k),
             FLeaf::Budget(n) => calls_before < *n,
             FLeaf::Pull(k, ty, want) => ev.first(k).and_then(|v| v.cast(*ty)) == *want,
@@ -421,7 +486,7 @@ impl FLeaf {
                 .unwrap_or(false),
             FLeaf::MdlEq(m) => *evt.mdl() == m.as_str(),
             FLeaf::ExtKind(k) => MExt::of(evt.extent()).kind() == *k,
-            FLeaf::TsEq(n) => evt.ts().map(|t| nanos_of(t) == *n).unwrap_or(false),
+            FLeaf::TsEq(n) => evt.ts().map(|t| ts_model(t) == *n).unwrap_or(false),
             FLeaf::Count(n) => {
                 let mut c = 0usize;
                 let _ = evt.props().for_each(|_, _| {
@@ -443,6 +508,11 @@ impl FLeaf {
                 });
                 hit
             }
+            FLeaf::StartPresent => evt.ts_start().is_some(),
+            FLeaf::StartEq(n) => evt.extent().and_then(|e| e.as_range()).map(|r| ts_model(&r.start) == *n).unwrap_or(false),
+            FLeaf::HasLen(b) => evt.extent().and_then(|e| e.len()).is_some() == *b,
+            FLeaf::LenEq(n) => evt.extent().and_then(|e| e.len()).map(|d| d.as_nanos() == *n as u128).unwrap_or(false),
+            FLeaf::Backwards => evt.extent().map(|e| e.is_range() && e.as_range().map(|r| r.start > r.end).unwrap_or(false)).unwrap_or(false),
             FLeaf::LacksKey(k) => evt.props().get(k.as_str()).is_none(),
             FLeaf::Budget(n) => calls_before < *n,
             FLeaf::Pull(k, ty, want) => {
@@ -486,6 +556,7 @@ impl FLeaf {
             FLeaf::TsEq(_) => "ts-eq",
             FLeaf::Count(_) => "count",
             FLeaf::KeyAt(..) => "key-at",
+            FLeaf::StartPresent | FLeaf::StartEq(_) | FLeaf::HasLen(_) | FLeaf::LenEq(_) | FLeaf::Backwards => "extent",
             FLeaf::LacksKey(_) => "lacks-key",
             FLeaf::Budget(_) => "budget",
             FLeaf::Pull(..) => "typed-pull",
